@@ -20,10 +20,10 @@ Qed.
 Lemma frame_refl : forall n r, reg_frame n r r.
 Proof. intros; left; auto. Qed.
 
-Lemma inv_step : forall s l s', Inv s -> guard s l = true -> step s l = Some s' -> Inv s'.
+Lemma inv_step : forall fx s l s', Inv s -> guard fx s l = true -> step fx s l = Some s' -> Inv s'.
 Proof.
-  intros s l s' I G S. unfold guard in G. apply andb_true_iff in G. destruct G as (GC & GO).
-  apply negb_true_iff in GC. apply negb_true_iff in GO.
+  intros fx s l s' I G S. unfold guard in G. apply andb_true_iff in G. destruct G as (GC & GO).
+  apply negb_true_iff in GO.
   destruct l as [n|n ok|n p|n i ok]; simpl in S.
   - (* Start *)
     destruct (flight (nodes s n)) eqn:F; [discriminate|]. inversion S; subst; clear S.
@@ -31,10 +31,11 @@ Proof.
     apply inv_upd; auto using frame_refl. apply start_ninv; auto.
   - (* Lead *)
     destruct (flight (nodes s n)) as [pc|] eqn:F; [|discriminate].
-    destruct (lstep n pc ok (sreg s) (nodes s n)) as [[r' ns1] nx] eqn:LS. inversion S; subst; clear S.
-    assert (CG : claimless_pc pc ok (sreg s) = false).
-    { destruct pc; simpl; auto. destruct ok; simpl; auto. simpl in GC. rewrite F in GC. exact GC. }
-    destruct (lead_ninv _ _ _ _ _ _ _ _ (I n) F CG LS) as (A & B).
+    destruct (lstep fx n pc ok (sreg s) (nodes s n)) as [[r' ns1] nx] eqn:LS. inversion S; subst; clear S.
+    assert (CG : fx = true \/ claimless_pc pc ok (sreg s) = false).
+    { destruct fx; [left; auto|right]. simpl in GC. apply negb_true_iff in GC.
+      destruct pc; simpl; auto. destruct ok; simpl; auto. simpl in GC. rewrite F in GC. exact GC. }
+    destruct (lead_ninv _ _ _ _ _ _ _ _ _ (I n) F CG LS) as (A & B).
     apply inv_upd; auto.
   - (* DeactStart *)
     destruct (p_flag (pf (nodes s n) p)) eqn:FP; [|discriminate]. inversion S; subst; clear S.
@@ -49,11 +50,11 @@ Proof.
     apply inv_upd; auto.
 Qed.
 
-Lemma inv_run_g : forall ls s s', Inv s -> run_g s ls = Some s' -> Inv s'.
+Lemma inv_run_g : forall fx ls s s', Inv s -> run_g fx s ls = Some s' -> Inv s'.
 Proof.
   induction ls as [|l t IH]; simpl; intros s s' I R.
   - inversion R; subst; auto.
-  - destruct (guard s l) eqn:G; [|discriminate]. destruct (step s l) as [s1|] eqn:S; [|discriminate].
+  - destruct (guard fx s l) eqn:G; [|discriminate]. destruct (step fx s l) as [s1|] eqn:S; [|discriminate].
     eapply IH; [|exact R]. eapply inv_step; eauto.
 Qed.
 
@@ -68,9 +69,9 @@ Proof.
   destruct (I n) as [p1 p2 _ _ _ _ _ _ _ _]. apply p2; apply p1; assumption.
 Qed.
 
-Theorem partial_safe : forall ls s,
-  run_g state0 ls = Some s -> at_most_one_active s /\ registry_names_holder s.
-Proof. intros ls s R. apply inv_safe. eapply inv_run_g; [apply inv0|exact R]. Qed.
+Theorem partial_safe : forall fx ls s,
+  run_g fx state0 ls = Some s -> at_most_one_active s /\ registry_names_holder s.
+Proof. intros fx ls s R. apply inv_safe. eapply inv_run_g; [apply inv0|exact R]. Qed.
 
 (* the guard is satisfiable by non-trivial executions: a full activation on node 0, a mismatch on node 1,
    a deactivation and a re-activation elsewhere, with failures injected *)
@@ -83,23 +84,36 @@ Definition guarded_example : list label :=
     Start 2; Lead 2 true; Lead 2 true; Lead 2 true; Lead 2 true; Lead 2 true; Lead 2 true ].
 
 Example guarded_example_runs :
-  match run_g state0 guarded_example with
+  match run_g false state0 guarded_example with
   | Some s => (live_nodes 3 s, r_get gk (sreg s), lastres (nodes s 1), lastres (nodes s 2))
   | None => ([(9, 9)], None, None, None)
   end = ([(2, 1)], Some 2, Some RErr, Some ROk).
 Proof. vm_compute. reflexivity. Qed.
 
 Lemma partial_nonvacuous :
-  exists s, run_g state0 guarded_example = Some s /\ is_live s 2 1 /\ r_get gk (sreg s) = Some 2.
+  exists s, run_g false state0 guarded_example = Some s /\ is_live s 2 1 /\ r_get gk (sreg s) = Some 2.
 Proof.
-  destruct (run_g state0 guarded_example) as [s|] eqn:E; [|vm_compute in E; discriminate].
+  destruct (run_g false state0 guarded_example) as [s|] eqn:E; [|vm_compute in E; discriminate].
   exists s. split; auto. generalize guarded_example_runs. rewrite E. intros X. inversion X as [[L R1 R2 R3]].
   split; auto. apply (in_live_nodes 3). rewrite L. simpl; auto.
 Qed.
 
 (* a guarded run equals the unguarded run (the guard only filters) *)
-Lemma run_g_run : forall ls s s', run_g s ls = Some s' -> run s ls = Some s'.
+Lemma run_g_run : forall fx ls s s', run_g fx s ls = Some s' -> run fx s ls = Some s'.
 Proof.
   induction ls as [|l t IH]; simpl; intros s s' R; auto.
-  destruct (guard s l); [|discriminate]. destruct (step s l); [|discriminate]. auto.
+  destruct (guard fx s l); [|discriminate]. destruct (step fx s l); [|discriminate]. auto.
 Qed.
+
+(* with the repair of tryClaimGrain the guard is only the overlap clause *)
+Lemma guard_repaired : forall s l, guard true s l = negb (overlap s l).
+Proof. intros; unfold guard; simpl; reflexivity. Qed.
+
+(* ... and the claim-less witness schedule is no longer a violation: the re-read that finds the record gone leads back
+   to the claim, which node 1 wins; node 2 then finds node 1's record *)
+Lemma witness_claimless_repaired :
+  match run true state0 (firstn 11 witness_claimless) with
+  | Some s => flight (nodes s 1)
+  | None => None
+  end = Some (LClaim 0).
+Proof. vm_compute. reflexivity. Qed.
